@@ -1,6 +1,6 @@
 (* C15, partition part.  Model of
      dds/src/dcps/dcps_domain_participant/discovery_methods.rs
-        fn fnmatch_to_regex (l. 3354)                         -> `fnmatch_to_regex`
+        fn fnmatch_to_regex (l. 3360)                         -> `fnmatch_to_regex`
         the partition test of process_discovered_readers (l. 848-890) and
         process_discovered_writers (l. 1409-1450)             -> `partition_matched`
    The `regex` crate itself is NOT modelled from its source: `regex_parse` / `reps_match`
